@@ -256,6 +256,11 @@ func Run(rep *hx.Report, props Props, tier string, sh hx.Shard, deadline time.Ti
 				// products of these exceed 2^32 (and 2^31, 2^33); 100003 and 1000003 are not powers of two,
 				// so that a truncation to 32 bits changes the residue
 				vals = []uint64{1, M/2 + 1, M - 1, 65537 % M, 92683 % M}
+			} else if M > 8000 {
+				vals = []uint64{0, 1, M / 2, M/2 + 1, M - 1} // 55440: every form, fewer field values
+			}
+			if M >= 1<<20 {
+				vals = vals[:4] // a check costs tens of milliseconds at this size
 			}
 			// pointers just below a multiple of the reduced limit used below
 			lim := M/2 - 1750
@@ -277,10 +282,17 @@ func Run(rep *hx.Report, props Props, tier string, sh hx.Shard, deadline time.Ti
 				} else if M >= 1<<20 && (am > g.B_INDIRECT || bm > g.B_INDIRECT) {
 					continue
 				}
-				if M >= 100000 && !thorough && (am > g.IMMEDIATE || bm > g.IMMEDIATE) {
+				if M >= 100000 && (!thorough || M < 1<<20) && (am > g.IMMEDIATE || bm > g.IMMEDIATE) {
+					continue // (every form at 100003 cells is in S3m)
+				}
+				if M == 100003 && thorough && (op < g.ADD || op > g.MOD) {
 					continue
 				}
-				for _, pc := range []uint64{0, M - 1} {
+				pcs3 := []uint64{0, M - 1}
+				if thorough && M > 8000 {
+					pcs3 = []uint64{M - 1}
+				}
+				for _, pc := range pcs3 {
 					for i := range st.Core {
 						st.Core[i] = g.Instruction{}
 					}
@@ -313,7 +325,7 @@ func Run(rep *hx.Report, props Props, tier string, sh hx.Shard, deadline time.Ti
 			}
 			rep.Sample(st.String())
 		}
-		rep.Bound += fmt.Sprintf("; S3: M in %v, PC at the first and the last cell, forms x field pairs from {0,1,2,M/2,M/2+1,M-2,M-1,46341,65536,L-1,2L-1} (L the reduced limit) with large fields in the operand cells, limits (M,M), (M/2-1750,M/2-1750) and (M/2+1,M-2) in rotation; for M >= 100003 five values whose products exceed 2^32 (quick: arithmetic opcodes only)", larges)
+		rep.Bound += fmt.Sprintf("; S3: M in %v, PC at the first and the last cell (thorough: the last cell only above 8000 cells), forms x field pairs from {0,1,2,M/2,M/2+1,M-2,M-1,46341,65536,L-1,2L-1} (L the reduced limit) with large fields in the operand cells, limits (M,M), (M/2-1750,M/2-1750) and (M/2+1,M-2) in rotation; for M >= 100003 five (four from 2^20) values whose products exceed 2^32; 55440: every form x 5 field values; 100003: arithmetic opcodes with direct/immediate operands; 2^20 and 1000003: every opcode x modifier with direct / immediate / B-indirect operands, single step", larges)
 	}
 
 	// S3m: every form on mid-sized and power-of-two cores and on the 100003-cell core.
